@@ -157,7 +157,13 @@ pub fn est_offset_bits(k: usize) -> i128 {
     -((1000 + k as i128) << 32) - 7
 }
 pub fn est_delay_bits(k: usize) -> i128 {
-    ((2000 + k as i128) << 32) + 9
+    // negative on odd-numbered ports: a filter's delay estimate can be below zero (noise, asymmetry)
+    let v = ((2000 + k as i128) << 32) + 9;
+    if k % 2 == 1 {
+        -v
+    } else {
+        v
+    }
 }
 
 pub fn tp_str(t: &TimePropertiesDS) -> String {
@@ -196,7 +202,12 @@ impl Clock for RecClock {
     }
     fn set_properties(&mut self, t: &TimePropertiesDS) -> Result<(), ()> {
         event(self.port, format!("props {}", tp_str(t)));
-        Ok(())
+        // the host's clock may refuse (`SET clock_props_fail 1`): the library logs the error and carries on
+        if PROPS_FAIL.with(|f| f.get()) {
+            Err(())
+        } else {
+            Ok(())
+        }
     }
 }
 
@@ -247,6 +258,11 @@ impl rand::RngCore for SeqRng {
         self.fill_bytes(dest);
         Ok(())
     }
+}
+
+thread_local! {
+    /// whether the ports' clocks refuse `set_properties`
+    static PROPS_FAIL: std::cell::Cell<bool> = const { std::cell::Cell::new(false) };
 }
 
 thread_local! {
@@ -961,6 +977,7 @@ impl InstExec {
             return acc_line(&w[1..]);
         }
         if w.first() == Some(&"INIT") {
+            PROPS_FAIL.with(|f| f.set(false));
             drain_events();
             take_lock_trace();
             return match self.init(&w[1..]) {
@@ -976,6 +993,12 @@ impl InstExec {
         }
         if self.inst.is_none() {
             return "dead".into();
+        }
+        if w.len() == 3 && w[0] == "SET" && w[1] == "clock_props_fail" {
+            PROPS_FAIL.with(|f| f.set(w[2] == "1"));
+            let st = self.state_line();
+            take_lock_trace(); // the getters behind the state line are not part of any library call under test
+            return format!("- | R ok | {st} | L -");
         }
         if w.first() == Some(&"DUMP") && w.len() == 1 {
             let r = guarded(|| self.observable_dump());
